@@ -210,23 +210,26 @@ func init() {
 			build func(l, r execution.Node) execution.Node
 			l, r  []stream.Ev
 		}
-		var jjobs []jjob
-		for _, k := range joinKinds {
-			k := k
-			for _, l := range js {
-				for _, rr := range js {
-					jjobs = append(jjobs, jjob{k.Name + "_join", buildJoin(k, 1), l, rr})
+		// the pairs are enumerated lazily (never materialised: the thorough tier has millions of them and every shard
+		// process walks the same sequence, taking the indices of its residue class)
+		loLong := jopts
+		loLong.MaxLen = r.Pick(3, 4)
+		loShort := jopts
+		loShort.MaxLen = 1
+		long, short := stream.GenScripts(loLong), stream.GenScripts(loShort)
+		forEachJoinJob := func(f func(i int, j jjob)) int {
+			i := 0
+			emit := func(j jjob) { f(i, j); i++ }
+			for _, k := range joinKinds {
+				k := k
+				for _, l := range js {
+					for _, rr := range js {
+						emit(jjob{k.Name + "_join", buildJoin(k, 1), l, rr})
+					}
 				}
 			}
-		}
-		// asymmetric family: a longer script (several watermarks in a row, retractions with later event times)
-		// against at most one event on the other input, in both roles
-		{
-			lo := jopts
-			lo.MaxLen = r.Pick(3, 4)
-			so := jopts
-			so.MaxLen = 1
-			long, short := stream.GenScripts(lo), stream.GenScripts(so)
+			// asymmetric family: a longer script (several watermarks in a row, retractions with later event times)
+			// against at most one event on the other input, in both roles
 			for _, k := range joinKinds {
 				k := k
 				for _, l := range long {
@@ -234,30 +237,32 @@ func init() {
 						continue
 					}
 					for _, s := range short {
-						jjobs = append(jjobs, jjob{k.Name + "_join", buildJoin(k, 1), l, s}, jjob{k.Name + "_join", buildJoin(k, 1), s, l})
+						emit(jjob{k.Name + "_join", buildJoin(k, 1), l, s})
+						emit(jjob{k.Name + "_join", buildJoin(k, 1), s, l})
 					}
 				}
 			}
-		}
-		for _, k := range []joinKind{joinKinds[0], joinKinds[3]} {
-			k := k
-			for _, l := range js {
-				for _, rr := range js {
-					if len(l) > 2 || len(rr) > 2 {
-						continue
+			for _, k := range []joinKind{joinKinds[0], joinKinds[3]} {
+				k := k
+				for _, l := range js {
+					for _, rr := range js {
+						if len(l) > 2 || len(rr) > 2 {
+							continue
+						}
+						emit(jjob{k.Name + "_join->group_by counting 1", func(l, r execution.Node) execution.Node {
+							return nodes.NewCustomTriggerGroupBy([]func() nodes.Aggregate{aggregates.NewCountPrototype()}, []execution.Expression{constInt(1)},
+								[]execution.Expression{col(0)}, -1, buildJoin(k, 1)(l, r), execution.NewCountingTriggerPrototype(1))
+						}, l, rr})
 					}
-					jjobs = append(jjobs, jjob{k.Name + "_join->group_by counting 1", func(l, r execution.Node) execution.Node {
-						return nodes.NewCustomTriggerGroupBy([]func() nodes.Aggregate{aggregates.NewCountPrototype()}, []execution.Expression{constInt(1)},
-							[]execution.Expression{col(0)}, -1, buildJoin(k, 1)(l, r), execution.NewCountingTriggerPrototype(1))
-					}, l, rr})
 				}
 			}
+			return i
 		}
-		r.Extra["join_script_pairs"] = len(jjobs)
+		r.Extra["join_script_pairs"] = forEachJoinJob(func(int, jjob) {})
 		r.Sharded(16, 1, func(shard, n int) {
-			for i, j := range jjobs {
+			forEachJoinJob(func(i int, j jjob) {
 				if i%n != shard {
-					continue
+					return
 				}
 				stream.Schedules(len(j.l)+1, len(j.r)+1, func(s []int) bool {
 					sched := append([]int{}, s...)
@@ -285,7 +290,7 @@ func init() {
 					}
 					return true
 				})
-			}
+			})
 		})
 	})
 }
